@@ -237,7 +237,7 @@ Proof.
   destruct (negb pl); [cbn [snd st refused]; hp_refused|].
   destruct (validate_holder_state warn prof (mem ch) n c) as [[|]|];
     [| cbn [snd st refused]; hp_refused | cbn [snd st aborted]; hp_aborted].
-  destruct (negb sg); [cbn [snd st refused]; hp_refused|].
+  destruct sg; [| cbn [snd st refused]; hp_refused | cbn [snd st aborted]; hp_aborted].
   destruct (n =? next_h (mem ch)) eqn:E.
   - cbn [snd st ok0]. unfold hpost. split; [intros Hx; discriminate|]. intros _.
     split; [reflexivity|]. cbn [persist mem opt_cons o_secret o_hsig ok0].
@@ -726,7 +726,7 @@ Proof.
   destruct (negb (point_ok (mem ch) n)); [cbn; discriminate|].
   destruct (negb pl); [cbn; discriminate|].
   destruct (validate_holder_state warn prof (mem ch) n c) as [[|]|]; try (cbn; discriminate).
-  destruct (negb sg); [cbn; discriminate|].
+  destruct sg; [| cbn; discriminate | cbn; discriminate].
   destruct (n =? next_h (mem ch)); cbn; auto.
 Qed.
 
@@ -911,7 +911,7 @@ Proof.
   destruct (negb (point_ok (mem ch) n)); [auto|].
   destruct (negb pl); [auto|].
   destruct (validate_holder_state warn prof (mem ch) n c) as [[|]|]; auto.
-  destruct (negb sg); [auto|].
+  destruct sg; [| auto | auto].
   destruct (n =? next_h (mem ch)); cbn [fst persist mem]; auto.
 Qed.
 
@@ -922,7 +922,7 @@ Proof.
   destruct (negb (point_ok (mem ch) n)); [reflexivity|].
   destruct (negb pl); [reflexivity|].
   destruct (validate_holder_state warn prof (mem ch) n c) as [[|]|]; try reflexivity.
-  destruct (negb sg); [reflexivity|]. destruct (n =? next_h (mem ch)); reflexivity.
+  destruct sg; [| reflexivity | reflexivity]. destruct (n =? next_h (mem ch)); reflexivity.
 Qed.
 
 Lemma step0_secret_closed ch o :
@@ -1055,17 +1055,17 @@ End Holder.
 (** the requests that can put (n, c) into the validated ledger: validations that carried
     counterparty signatures which verified ([sig_ok = true]) on acceptable content *)
 Definition validation_of (o : op) (n : N) (c : content) : Prop :=
-  o = ValidateHolder n c true true \/ (exists py, o = HValidateOld n c true true py) \/
-  o = HValidateNew n c true true.
+  o = ValidateHolder n c SGood true \/ (exists py, o = HValidateOld n c SGood true py) \/
+  o = HValidateNew n c SGood true.
 
 Lemma do_validate_ok_needs_sigs warn prof ch n c sg pl :
-  st (snd (do_validate warn prof ch n c sg pl)) = Ok -> sg = true /\ pl = true.
+  st (snd (do_validate warn prof ch n c sg pl)) = Ok -> sg = SGood /\ pl = true.
 Proof.
   unfold do_validate.
   destruct (negb (point_ok (mem ch) n)); [cbn; discriminate|].
   destruct pl; cbn [negb]; [|cbn; discriminate].
   destruct (validate_holder_state warn prof (mem ch) n c) as [[|]|]; try (cbn; discriminate).
-  destruct sg; cbn [negb]; [|cbn; discriminate].
+  destruct sg; [| cbn; discriminate | cbn; discriminate].
   destruct (n =? next_h (mem ch)); auto.
 Qed.
 
